@@ -17,6 +17,8 @@ import Mahotas.Proofs.C15Graham
 import Mahotas.Proofs.C15Euler
 import Mahotas.Proofs.C15Cell
 import Mahotas.Proofs.C15Count
+import Mahotas.Proofs.C15Flood
+import Mahotas.Proofs.C15FloodPx
 open Mahotas Mahotas.C15
 
 /-- **thin ⊆ input.** Every pixel set in the model of `mahotas.thin` (crop to the bounding box, zero
@@ -389,3 +391,172 @@ example : Nat.card (Comps (bset (Bin.ofInts 1 1 [1]))) = 1 := by
           simp only [Bin.ofInts] at h2 h4
           omega
       rw [hac]
+/-! ## Round 3 addendum: the flood-fill counting oracle counts connected components -/
+
+/-- **The flood-fill oracle counts the connected components** — for every `rows`, `cols`, every mask array (reads
+outside the array are `false`; no size hypothesis is needed) and both connectivities. The graph: a vertex
+(`IsV rows cols mask i`) is a flat index `i < rows * cols` with `mask[i] = true`; `adjIdx rows cols conn8 i j` says
+that `j`'s (row, column) is `i`'s (row `i / cols`, column `i % cols`) plus one of the offsets of `neigh conn8`
+(the 8 or the 4 neighbours), inside the box `[0, rows) × [0, cols)` (`tgt`, the model's own index arithmetic);
+`IConn` is the reflexive-transitive closure of "adjacent vertices" (it is symmetric: `IConn.symm`). Claim: there is a
+duplicate-free list `seeds` whose **length is the first component of `countComps`**, whose members are exactly the
+set pixels that are the smallest index of their connected component (one canonical representative per component), and
+every set pixel is connected to exactly one member. Hence `(countComps rows cols mask conn8).1` is the number of
+connected components. Proof: loop invariant of `flood` (everything newly marked is connected to the seed; every marked
+pixel that has left the stack has all its set neighbours marked), fuel adequacy (`stack length + #unmarked set pixels`
+never increases over a step that pops one pixel, so `rows * cols + 1` steps empty the stack), and the invariant of the
+outer scan (the marked set is the union of the components of the seeds found so far). -/
+theorem C15_components_count (rows cols : Nat) (mask : Array Bool) (conn8 : Bool) :
+    ∃ seeds : List Nat, seeds.Nodup ∧ seeds.length = (countComps rows cols mask conn8).1 ∧
+      (∀ i, i ∈ seeds ↔ (IsV rows cols mask i ∧ ∀ j, IConn rows cols mask conn8 i j → i ≤ j)) ∧
+      (∀ k, IsV rows cols mask k → ∃! s, s ∈ seeds ∧ IConn rows cols mask conn8 s k) := by
+  obtain ⟨seeds, _, h1, h2, h3, h4, _⟩ := countComps_spec rows cols mask conn8
+  exact ⟨seeds, h1, h2, h3, h4⟩
+
+/-- **`components b conn8` is the number of `conn8`-connected components of the foreground of `b`** (the oracle used by
+the correspondence check for the thinning outputs and for `eulerSpec`): the statement of `C15_components_count` for
+the image's own `rows`, `cols`, `data`. -/
+theorem C15_components_count_bin (b : Bin) (conn8 : Bool) :
+    ∃ seeds : List Nat, seeds.Nodup ∧ seeds.length = components b conn8 ∧
+      (∀ i, i ∈ seeds ↔ (IsV b.rows b.cols b.data i ∧ ∀ j, IConn b.rows b.cols b.data conn8 i j → i ≤ j)) ∧
+      (∀ k, IsV b.rows b.cols b.data k → ∃! s, s ∈ seeds ∧ IConn b.rows b.cols b.data conn8 s k) :=
+  C15_components_count b.rows b.cols b.data conn8
+
+/-- **The second counter counts the components that meet the image border**: there is a duplicate-free list whose
+length is `(countComps rows cols mask conn8).2` and whose members are exactly the canonical representatives (smallest
+index of the component) of those components that contain a pixel `k` in row 0, column 0, the last row or the last
+column (`bdr rows cols k`). -/
+theorem C15_components_border_count (rows cols : Nat) (mask : Array Bool) (conn8 : Bool) :
+    ∃ touching : List Nat, touching.Nodup ∧ touching.length = (countComps rows cols mask conn8).2 ∧
+      (∀ s, s ∈ touching ↔ ((IsV rows cols mask s ∧ ∀ j, IConn rows cols mask conn8 s j → s ≤ j) ∧
+        ∃ k, IConn rows cols mask conn8 s k ∧ bdr rows cols k = true)) := by
+  obtain ⟨_, seeds2, _, _, _, _, h5, h6, h7⟩ := countComps_spec rows cols mask conn8
+  exact ⟨seeds2, h5, h6, h7⟩
+
+/-- **`holes b conn8` is the number of `conn8`-connected components of the background that do not meet the image
+border**: the background mask is `b.data.map (!·)` (for a well-formed image, `b.data.size = b.rows * b.cols`, its
+vertices are exactly the unset pixels of the box); there is a duplicate-free list of length `holes b conn8` whose members
+are exactly the canonical representatives of the background components containing no border pixel. -/
+theorem C15_holes_count (b : Bin) (conn8 : Bool) :
+    ∃ inner : List Nat, inner.Nodup ∧ inner.length = holes b conn8 ∧
+      (∀ s, s ∈ inner ↔ ((IsV b.rows b.cols (b.data.map (!·)) s ∧
+          ∀ j, IConn b.rows b.cols (b.data.map (!·)) conn8 s j → s ≤ j) ∧
+        ¬ ∃ k, IConn b.rows b.cols (b.data.map (!·)) conn8 s k ∧ bdr b.rows b.cols k = true)) :=
+  countComps_inner b.rows b.cols (b.data.map (!·)) conn8
+
+/-- the background mask of a well-formed image: inside the box a pixel is a background vertex iff it is not set -/
+theorem C15_background_vertex (b : Bin) (hwf : b.data.size = b.rows * b.cols) (k : Nat) :
+    IsV b.rows b.cols (b.data.map (!·)) k ↔ (k < b.rows * b.cols ∧ b.data.getD k false = false) := by
+  unfold IsV mk
+  constructor
+  · rintro ⟨h1, h2⟩
+    refine ⟨h1, ?_⟩
+    have : k < b.data.size := by omega
+    simpa [Array.getD_eq_getD_getElem?, this] using h2
+  · rintro ⟨h1, h2⟩
+    refine ⟨h1, ?_⟩
+    have : k < b.data.size := by omega
+    simpa [Array.getD_eq_getD_getElem?, this] using h2
+
+/-- **`eulerSpec` is (number of foreground components) − (number of background components in the dual connectivity
+that do not meet the border)**, with both numbers given as lengths of duplicate-free lists of canonical
+representatives. -/
+theorem C15_eulerSpec_count (b : Bin) (conn8 : Bool) :
+    ∃ comps inner : List Nat, comps.Nodup ∧ inner.Nodup ∧
+      eulerSpec b conn8 = (comps.length : Int) - (inner.length : Int) ∧
+      (∀ i, i ∈ comps ↔ (IsV b.rows b.cols b.data i ∧ ∀ j, IConn b.rows b.cols b.data conn8 i j → i ≤ j)) ∧
+      (∀ s, s ∈ inner ↔ ((IsV b.rows b.cols (b.data.map (!·)) s ∧
+          ∀ j, IConn b.rows b.cols (b.data.map (!·)) (!conn8) s j → s ≤ j) ∧
+        ¬ ∃ k, IConn b.rows b.cols (b.data.map (!·)) (!conn8) s k ∧ bdr b.rows b.cols k = true)) := by
+  obtain ⟨comps, h1, h2, h3, _⟩ := C15_components_count_bin b conn8
+  obtain ⟨inner, g1, g2, g3⟩ := C15_holes_count b (!conn8)
+  exact ⟨comps, inner, h1, g1, by unfold eulerSpec; rw [h2, g2], h3, g3⟩
+
+/-- non-vacuity: the diagonal pair `[[1,0],[0,1]]` is one 8-component and two 4-components, all touching the border;
+    its pixels 0 and 3 are joined by an edge for 8-connectivity (`IConn`) and are not adjacent for 4-connectivity;
+    the 3×3 ring has one component and one hole (4-connected background); with the corner pixel `(0,0)` removed the
+    centre is still a hole for the 4-connected background (the gap is diagonal) but not for the 8-connected one. -/
+example : countComps 2 2 #[true, false, false, true] true = (1, 1) ∧
+    countComps 2 2 #[true, false, false, true] false = (2, 2) ∧
+    components (Bin.ofInts 3 3 [1, 1, 1, 1, 0, 1, 1, 1, 1]) true = 1 ∧
+    holes (Bin.ofInts 3 3 [1, 1, 1, 1, 0, 1, 1, 1, 1]) false = 1 ∧
+    eulerSpec (Bin.ofInts 3 3 [1, 1, 1, 1, 0, 1, 1, 1, 1]) true = 0 ∧
+    holes (Bin.ofInts 3 3 [0, 1, 1, 1, 0, 1, 1, 1, 1]) false = 1 ∧
+    holes (Bin.ofInts 3 3 [0, 1, 1, 1, 0, 1, 1, 1, 1]) true = 0 := by
+  decide +kernel
+
+example : IConn 2 2 #[true, false, false, true] true 0 3 ∧ ¬ adjIdx 2 2 false 0 3 := by
+  refine ⟨Relation.ReflTransGen.single ⟨⟨by decide, by decide⟩, ⟨by decide, by decide⟩, (1, 1), by decide, by decide⟩, ?_⟩
+  rintro ⟨d, hd, ht⟩
+  revert ht
+  revert d
+  decide
+
+/-- **The edges of the counted graph in pixel coordinates** (both connectivities): for a flat index `j` inside the box,
+`adjIdx rows cols conn8 i j` holds iff (row of `j` − row of `i`, column of `j` − column of `i`) is one of the offsets
+of `neigh conn8`, with row `= index / cols` and column `= index % cols`. So the graph of `C15_components_count` is the
+usual 8- (4-) neighbourhood graph on the set pixels of the `rows × cols` box. -/
+theorem C15_flood_graph_coordinates (rows cols : Nat) (conn8 : Bool) (i j : Nat) (hj : j < rows * cols) :
+    adjIdx rows cols conn8 i j ↔
+      (((j / cols : Nat) : Int) - ((i / cols : Nat) : Int), ((j % cols : Nat) : Int) - ((i % cols : Nat) : Int))
+        ∈ neigh conn8 :=
+  adjIdx_iff hj
+
+/-- **For 8-connectivity the oracle counts the classes of `Conn (bset b)`** — the very connectivity relation
+(`adj8` on pixels `(row, column) : ℤ × ℤ`, chains inside the pixel set `bset b` of the image) that the thinning theorems
+`C15_pass_preserves_components` … speak about: there is a duplicate-free list of `components b true` flat indices of
+set pixels such that every pixel of `bset b` is `Conn (bset b)`-connected to the pixel (`pxOf`: row `s / cols`, column
+`s % cols`) of exactly one member. Hence `components b true` is the number of 8-connected components of `bset b`, and
+the `nin = nout` comparison of the check compares exactly the quantity that `SameComps` preserves. -/
+theorem C15_components_count_pixels (b : Bin) :
+    ∃ seeds : List Nat, seeds.Nodup ∧ seeds.length = components b true ∧
+      (∀ s ∈ seeds, s < b.rows * b.cols ∧ pxOf b.cols s ∈ bset b) ∧
+      (∀ p ∈ bset b, ∃! s, s ∈ seeds ∧ Conn (bset b) (pxOf b.cols s) p) := by
+  obtain ⟨seeds, h1, h2, h3, h4⟩ := C15_components_count_bin b true
+  refine ⟨seeds, h1, h2, fun s hs => (isV_iff b s).mp ((h3 s).mp hs).1, ?_⟩
+  intro p hp
+  obtain ⟨l, e⟩ := box_idx (bset_box b hp)
+  have hV : IsV b.rows b.cols b.data (idxOf b.cols p) := (isV_iff b _).mpr ⟨l, by rw [e]; exact hp⟩
+  obtain ⟨s, ⟨hs1, hs2⟩, huniq⟩ := h4 _ hV
+  refine ⟨s, ⟨hs1, ?_⟩, ?_⟩
+  · have := ((IConn_iff_Conn b ((h3 s).mp hs1).1).mp hs2).2
+    rwa [e] at this
+  · rintro s' ⟨hs1', hs2'⟩
+    apply huniq
+    refine ⟨hs1', (IConn_iff_Conn b ((h3 s').mp hs1').1).mpr ⟨l, ?_⟩⟩
+    rw [e]; exact hs2'
+
+/-- non-vacuity: in the 2×2 diagonal pair the pixels `(0,0)` and `(1,1)` form one class of `Conn (bset b)`, and the
+    oracle says 1 -/
+example : components (Bin.ofInts 2 2 [1, 0, 0, 1]) true = 1 ∧
+    Conn (bset (Bin.ofInts 2 2 [1, 0, 0, 1])) (0, 0) (1, 1) := by
+  refine ⟨by decide +kernel, Relation.ReflTransGen.single
+    ⟨show (Bin.ofInts 2 2 [1, 0, 0, 1]).get 0 0 = true by decide,
+     show (Bin.ofInts 2 2 [1, 0, 0, 1]).get 1 1 = true by decide, ?_⟩⟩
+  rw [adj8_iff]
+  decide
+
+/-- **Images with the same 8-components get the same count from the oracle**: if `SameComps (bset a) (bset b)` (the
+pixel set of `b` lies in that of `a`, connectivity between pixels of `b` is the same in both, every pixel of `a` is
+connected to one of `b` — the relation the thinning theorems establish) then `components a true = components b true`.
+(Counting argument on the two systems of representatives of `C15_components_count_pixels`.) -/
+theorem C15_components_eq_of_sameComps (a b : Bin) (h : SameComps (bset a) (bset b)) :
+    components a true = components b true := by
+  obtain ⟨la, a1, a2, a3, a4⟩ := C15_components_count_pixels a
+  obtain ⟨lb, b1, b2, b3, b4⟩ := C15_components_count_pixels b
+  rw [← a2, ← b2]
+  exact sdr_length_eq h ⟨a1, fun s hs => (a3 s hs).2, a4⟩ ⟨b1, fun s hs => (b3 s hs).2, b4⟩
+
+/-- **`thin` keeps the number of 8-connected components as counted by the oracle** — the `nin = nout` comparison of the
+correspondence check, proved for the model and every image and every `max_iter`:
+`components (thinModel b maxIter) true = components b true`
+(from `C15_thin_preserves_components` and `C15_components_eq_of_sameComps`). -/
+theorem C15_thin_components_count (b : Bin) (maxIter : Int) :
+    components (thinModel b maxIter) true = components b true :=
+  (C15_components_eq_of_sameComps b (thinModel b maxIter) (C15_thin_preserves_components b maxIter)).symm
+
+/-- non-vacuity: a filled 3×3 square thins to fewer pixels and keeps its single component -/
+example : components (Bin.ofInts 3 3 [1, 1, 1, 1, 1, 1, 1, 1, 1]) true = 1 ∧
+    (thinModel (Bin.ofInts 3 3 [1, 1, 1, 1, 1, 1, 1, 1, 1])).count < 9 ∧
+    components (thinModel (Bin.ofInts 3 3 [1, 1, 1, 1, 1, 1, 1, 1, 1])) true = 1 := by
+  decide +kernel
